@@ -177,7 +177,7 @@ Lemma reify_seq_eq l : forall s,
   (fix seq (l : list pform) (s : st) : list form :=
      match l with [] => [] | x :: r => reify x s :: seq r (adv_n (S (length (render x))) s) end) l s
   = reify_seq l s.
-Proof. induction l as [|x r IH]; intros s; [reflexivity|]. cbn [reify_seq]. Show. Abort.
+Proof. induction l as [|x r IH]; intros s; [reflexivity|]. cbn [reify_seq]. rewrite IH. reflexivity. Qed.
 Lemma reify_list l s :
   reify (PList l) s = FList (reify_seq l (adv s)) (mkloc s (adv_n (length (render (PList l))) s)).
 Proof. cbn [reify]. rewrite reify_seq_eq. reflexivity. Qed.
@@ -200,3 +200,500 @@ Proof.
   - eexists _, _. split; [reflexivity|]. repeat split; reflexivity.
   - eexists _, _. split; [reflexivity|]. repeat split; reflexivity.
 Qed.
+
+(** ** induction principle for nested forms *)
+Section PInd.
+  Variable P : pform -> Prop.
+  Hypothesis HSym : forall n, P (PSym n).
+  Hypothesis HStr : forall c, P (PStr c).
+  Hypothesis HList : forall l, Forall P l -> P (PList l).
+  Hypothesis HVec : forall l, Forall P l -> P (PVec l).
+  Hypothesis HQ : forall g, P g -> P (PQuote g).
+  Hypothesis HD : forall g, P g -> P (PDeref g).
+  Fixpoint pform_ind' (f : pform) : P f :=
+    match f with
+    | PSym n => HSym n
+    | PStr c => HStr c
+    | PList l => HList l ((fix go (l : list pform) : Forall P l :=
+                             match l with [] => Forall_nil _ | x :: r => Forall_cons _ (pform_ind' x) (go r) end) l)
+    | PVec l => HVec l ((fix go (l : list pform) : Forall P l :=
+                           match l with [] => Forall_nil _ | x :: r => Forall_cons _ (pform_ind' x) (go r) end) l)
+    | PQuote g => HQ g (pform_ind' g)
+    | PDeref g => HD g (pform_ind' g)
+    end.
+End PInd.
+
+Lemma skipws_nonws s c : peek s = Some c -> is_ws c = false -> skipws s = s.
+Proof.
+  intros P W. unfold skipws. apply peek_some in P as [r E]. rewrite E. simpl.
+  unfold peek. rewrite E. simpl. rewrite W. reflexivity.
+Qed.
+
+Lemma reify_not_rcond f s : match reify f s with FRCond _ _ => False | _ => True end.
+Proof. destruct f; exact I. Qed.
+
+Lemma tcond_closer c r : c = 41 \/ c = 93 -> tcond (c :: r).
+Proof. intros [->| ->]; right; eexists _, _; split; reflexivity. Qed.
+Lemma tcond_space r : tcond (32 :: r).
+Proof. right. eexists _, _. split; reflexivity. Qed.
+
+Section Core.
+  Variable orc : N -> list N -> bool.
+
+  Definition RR (f : pform) : Prop :=
+    wf f = true -> forall fuel cx s r,
+      sq cx = false -> rest s = render f ++ r -> tcond r ->
+      read_next orc fuel cx s = Err EFuel \/
+      read_next orc fuel cx s = Ok (IForm (reify f s)) (adv_n (length (render f)) s).
+
+  (** the elements of a collection, up to and including the closer *)
+  Lemma coll_render k cx closer : sq cx = false -> closer = 41 \/ closer = 93 ->
+    forall l, Forall RR l -> forallb wf l = true ->
+    forall n s acc r, rest s = render_seq l ++ closer :: r ->
+      coll_loop orc (read_next orc k) cx closer n s acc = Err EFuel \/
+      coll_loop orc (read_next orc k) cx closer n s acc
+        = Ok (rev acc ++ reify_seq l s) (adv_n (S (length (render_seq l))) s).
+  Proof.
+    intros SQ CL. 
+    assert (CW : is_ws closer = false) by (destruct CL as [->| ->]; reflexivity).
+    induction l as [|x t IH]; intros FA W n s acc r E.
+    - destruct n; [left; reflexivity|]. right. simpl in *.
+      rewrite (peek_rest _ _ _ E), CW, N.eqb_refl. rewrite app_nil_r. reflexivity.
+    - destruct n; [left; reflexivity|].
+      inversion FA as [|? ? Rx Rt]; subst. simpl in W. apply andb_true_iff in W as [Wx Wt].
+      destruct (render_head x Wx) as (c & tl & HX & HW & H41 & H93).
+      (* the text after x *)
+      set (after := match t with [] => closer :: r | _ => 32 :: render_seq t ++ closer :: r end).
+      assert (E' : rest s = render x ++ after).
+      { rewrite E. unfold after. destruct t; simpl; [reflexivity|]. rewrite <- app_assoc. reflexivity. }
+      assert (TC : tcond after).
+      { unfold after. destruct t; [apply tcond_closer; exact CL|apply tcond_space]. }
+      assert (P : peek s = Some c) by (eapply peek_rest; rewrite E', HX; reflexivity).
+      assert (NC : (c =? closer) = false) by (destruct CL as [->| ->]; assumption).
+      simpl. rewrite P, HW, NC.
+      destruct (Rx Wx k cx s after SQ E' TC) as [H|H]; rewrite H; [left; reflexivity|].
+      pose proof (reify_not_rcond x s) as NR.
+      cbn [reify_seq]. remember (reify x s) as fx eqn:Efx.
+      set (s' := adv_n (length (render x)) s) in *.
+      assert (ES' : rest s' = after) by (apply adv_n_app; exact E').
+      assert (STEP : coll_loop orc (read_next orc k) cx closer n s' (fx :: acc) = Err EFuel \/
+                     coll_loop orc (read_next orc k) cx closer n s' (fx :: acc)
+                     = Ok (rev acc ++ fx :: reify_seq t (adv_n (S (length (render x))) s))
+                          (adv_n (S (length (render_seq (x :: t)))) s)).
+      { destruct t as [|y t'].
+        - (* x was the last element *)
+          destruct (IH Rt Wt n s' (fx :: acc) r ES') as [G|G]; [left; exact G|]. right.
+          rewrite G. simpl. rewrite <- app_assoc. unfold s'. f_equal.
+          rewrite <- adv_n_S. reflexivity.
+        - (* a space, then the rest *)
+          destruct n; [left; reflexivity|]. unfold after in ES'.
+          simpl. rewrite (peek_rest _ _ _ ES'). change (is_ws 32) with true. cbn match.
+          assert (ES'' : rest (adv s') = render_seq (y :: t') ++ closer :: r) by (eapply adv_rest; exact ES').
+          destruct (IH Rt Wt n (adv s') (fx :: acc) r ES'') as [G|G]; [left; exact G|]. right.
+          rewrite G. cbn [reify_seq rev]. rewrite <- app_assoc. cbn [app].
+          assert (A1 : adv s' = adv_n (S (length (render x))) s) by (unfold s'; rewrite adv_n_S; reflexivity).
+          rewrite A1. f_equal.
+          assert (LEN : S (length (render_seq (x :: y :: t'))) =
+                        (S (length (render x)) + S (length (render_seq (y :: t'))))%nat).
+          { change (render_seq (x :: y :: t')) with (render x ++ 32 :: render_seq (y :: t')).
+            remember (render_seq (y :: t')) as RS. rewrite app_length. cbn [length]. lia. }
+          transitivity (adv_n (S (length (render_seq (x :: y :: t')))) s);
+            [rewrite LEN, adv_n_add; reflexivity|reflexivity]. }
+      clear Efx. destruct fx; try contradiction; exact STEP.
+  Qed.
+
+  Lemma read_next_step k cx s c :
+    peek s = Some c -> is_begin_num c = false -> is_ws c = false ->
+    read_next orc (S k) cx s =
+      let rn := read_next orc k in
+      let form_ := fun (r : res form) => bind r (fun f s' => Ok (IForm f) s') in
+      match dispatch_code c with
+      | 1 => form_ (read_list orc rn cx s)
+      | 2 => form_ (read_vec orc rn cx s)
+      | 3 => form_ (read_map orc rn cx None s)
+      | 4 => form_ (bind (read_str false s) (fun p s' => Ok (FStr p) s'))
+      | 5 => form_ (read_quoted rn cx s)
+      | 6 => form_ (read_char s)
+      | 7 => read_macro orc rn cx s
+      | 8 => form_ (read_meta rn cx s)
+      | 9 => Ok IComment (read_comment s)
+      | 10 => form_ (read_sq rn cx s)
+      | 11 => form_ (read_unquote rn cx s)
+      | 12 => form_ (read_deref rn cx s)
+      | _ => if is_begin_name c then
+               (if c =? 58 then form_ (read_kw s) else form_ (read_sym cx false s))
+             else syn s
+      end.
+  Proof. intros P B W. cbn [read_next]. rewrite P, B, W. reflexivity. Qed.
+
+  Lemma req_render k cx g s r :
+    RR g -> wf g = true -> sq cx = false -> rest s = render g ++ r -> tcond r ->
+    req (read_next orc k) cx s = Err EFuel \/
+    req (read_next orc k) cx s = Ok (reify g s) (adv_n (length (render g)) s).
+  Proof.
+    intros R W SQ E T. unfold req. cbn [req_loop].
+    destruct (render_head g W) as (c & tl & HX & HW & _).
+    assert (P : peek s = Some c) by (eapply peek_rest; rewrite E, HX; reflexivity).
+    rewrite (skipws_nonws _ _ P HW), P.
+    destruct (R W k cx s r SQ E T) as [H|H]; rewrite H; [left|right]; reflexivity.
+  Qed.
+
+  Theorem read_render f : RR f.
+  Proof.
+    induction f using pform_ind'; intros W fuel cx s r SQ E T; (destruct fuel as [|k]; [left; reflexivity|]).
+    - (* symbol *)
+      pose proof W as W0. simpl in W. apply andb_true_iff in W as [W _]. apply andb_true_iff in W as [NE F].
+      destruct n as [|c t]; [discriminate|]. simpl in F. apply andb_true_iff in F as [Fc _]. lfacts c Fc.
+      assert (P : peek s = Some c) by (eapply peek_rest; exact E).
+      right. rewrite (read_next_step k cx s c P Lnum Lws). cbv zeta. rewrite Ldisp. cbn match.
+      rewrite Lname, L58. rewrite (read_sym_render cx (c :: t) r s SQ E W0 T). reflexivity.
+    - (* string *)
+      cbn [render] in E. assert (P : peek s = Some 34) by (eapply peek_rest; exact E).
+      rewrite (read_next_step k cx s 34 P eq_refl eq_refl). cbv zeta.
+      change (dispatch_code 34) with 4. cbn match. unfold read_str.
+      assert (E1 : rest (adv s) = c ++ 34 :: r).
+      { apply (adv_rest s 34). rewrite E. cbn [app]. rewrite <- app_assoc. reflexivity. }
+      destruct (str_loop_render c r s [] (S (length (rest s))) E1 W) as [H|H]; rewrite H; [left; reflexivity|].
+      right. cbn [bind rev app reify]. f_equal.
+      assert (LEN : length (render (PStr c)) = S (S (length c))).
+      { cbn [render length]. rewrite app_length. cbn [length]. lia. }
+      rewrite LEN, <- adv_n_S. reflexivity.
+    - (* list *)
+      rewrite render_list in E. assert (P : peek s = Some 40) by (eapply peek_rest; exact E).
+      rewrite (read_next_step k cx s 40 P eq_refl eq_refl). cbv zeta.
+      change (dispatch_code 40) with 1. cbn match. unfold read_list, read_elems.
+      assert (E1 : rest (adv s) = render_seq l ++ 41 :: r).
+      { apply (adv_rest s 40). rewrite E. cbn [app]. rewrite <- app_assoc. reflexivity. }
+      destruct (coll_render k cx 41 SQ (or_introl eq_refl) l H W (S (length (rest (adv s)))) (adv s) [] r E1) as [G|G];
+        rewrite G; [left; reflexivity|].
+      right. cbn [bind rev app]. rewrite reify_list.
+      assert (LEN : length (render (PList l)) = S (S (length (render_seq l)))).
+      { rewrite render_list. cbn [length]. rewrite app_length. cbn [length]. lia. }
+      rewrite LEN. reflexivity.
+    - (* vector *)
+      rewrite render_vec in E. assert (P : peek s = Some 91) by (eapply peek_rest; exact E).
+      rewrite (read_next_step k cx s 91 P eq_refl eq_refl). cbv zeta.
+      change (dispatch_code 91) with 2. cbn match. unfold read_vec, read_elems.
+      assert (E1 : rest (adv s) = render_seq l ++ 93 :: r).
+      { apply (adv_rest s 91). rewrite E. cbn [app]. rewrite <- app_assoc. reflexivity. }
+      destruct (coll_render k cx 93 SQ (or_intror eq_refl) l H W (S (length (rest (adv s)))) (adv s) [] r E1) as [G|G];
+        rewrite G; [left; reflexivity|].
+      right. cbn [bind rev app]. rewrite reify_vec.
+      assert (LEN : length (render (PVec l)) = S (S (length (render_seq l)))).
+      { rewrite render_vec. cbn [length]. rewrite app_length. cbn [length]. lia. }
+      rewrite LEN. reflexivity.
+    - (* quote *)
+      cbn [render] in E. assert (P : peek s = Some 39) by (eapply peek_rest; exact E).
+      rewrite (read_next_step k cx s 39 P eq_refl eq_refl). cbv zeta.
+      change (dispatch_code 39) with 5. cbn match. unfold read_quoted.
+      assert (E1 : rest (adv s) = render f ++ r) by (eapply adv_rest; exact E).
+      destruct (req_render k cx f (adv s) r IHf W SQ E1 T) as [G|G]; rewrite G; [left; reflexivity|].
+      right. reflexivity.
+    - (* deref *)
+      cbn [render] in E. assert (P : peek s = Some 64) by (eapply peek_rest; exact E).
+      rewrite (read_next_step k cx s 64 P eq_refl eq_refl). cbv zeta.
+      change (dispatch_code 64) with 12. cbn match. unfold read_deref.
+      assert (E1 : rest (adv s) = render f ++ r) by (eapply adv_rest; exact E).
+      destruct (req_render k cx f (adv s) r IHf W SQ E1 T) as [G|G]; rewrite G; [left; reflexivity|].
+      right. reflexivity.
+  Qed.
+End Core.
+
+(* ------------------------------------------------------------------------------------ *)
+(** ** complete plain forms: the whole text *)
+Section Top.
+  Variable orc : N -> list N -> bool.
+
+  Lemma tcond_nil : tcond [].
+  Proof. left. reflexivity. Qed.
+
+  Lemma render_nonempty f : wf f = true -> exists c t, render f = c :: t.
+  Proof. intros W. destruct (render_head f W) as (c & t & E & _). eauto. Qed.
+
+  Theorem read_all_render f : wf f = true ->
+    read_all orc (render f) =
+      Ok [reify f (init (render f))] (adv_n (length (render f)) (init (render f))).
+  Proof.
+    intros W. pose proof (read_all_terminates orc (render f)) as NF.
+    unfold read_all in *. destruct (render_nonempty f W) as (c & t & E).
+    set (s0 := init (render f)) in *.
+    assert (E0 : rest s0 = render f ++ []) by (rewrite app_nil_r; reflexivity).
+    remember (S (length (render f))) as fuel eqn:EF.
+    assert (F2 : exists m, fuel = S (S m)) by (rewrite EF, E; simpl; eauto).
+    destruct F2 as (m & ->). cbn [read_top] in *.
+    destruct (read_render orc f W (S (S m)) ctx0 s0 [] eq_refl E0 tcond_nil) as [H|H];
+      rewrite H in *; [congruence|].
+    pose proof (reify_not_rcond f s0) as NR.
+    set (s1 := adv_n (length (render f)) s0) in *.
+    assert (E1 : rest s1 = []) by (apply (adv_n_app s0 (render f) []); exact E0).
+    assert (R1 : read_next orc (S (S m)) ctx0 s1 = Ok IEof s1).
+    { cbn [read_next]. rewrite (peek_nil _ E1). reflexivity. }
+    remember (reify f s0) as fx. destruct fx; try contradiction; rewrite R1 in *; reflexivity.
+  Qed.
+End Top.
+
+(** ** incomplete plain text gives an unexpected-EOF error *)
+Section Owed.
+  Variable orc : N -> list N -> bool.
+
+  Definition is_eof_err {A} (r : res A) : Prop := exists l c, r = Err (EEof l c).
+  Definition EE {A} (r : res A) : Prop := r = Err EFuel \/ is_eof_err r.
+
+  Lemma str_loop_open chars : forall s acc n,
+    rest (adv s) = chars -> strchars_ok chars = true -> EE (str_loop false n s acc).
+  Proof.
+    induction chars as [|c t IH]; intros s acc n E W.
+    - destruct n; [left; reflexivity|]. right. simpl. rewrite (peek_nil _ E). eexists _, _. reflexivity.
+    - destruct n; [left; reflexivity|]. simpl in W. apply andb_true_iff in W as [Wc Wt].
+      apply andb_true_iff in Wc as [W34 W92]. apply negb_true_iff in W34, W92.
+      simpl. rewrite (peek_rest _ _ _ E). rewrite W92, W34.
+      apply IH; [eapply adv_rest; exact E|exact Wt].
+  Qed.
+
+  Definition KK (k : pctx) : Prop :=
+    wf_ctx k = true -> forall fuel cx s, sq cx = false -> rest s = render_ctx k ->
+    EE (read_next orc fuel cx s).
+
+  Lemma ctx_head k : exists c t, render_ctx k = c :: t /\ head_ok c /\ is_begin_num c = false.
+  Proof.
+    destruct k; try destruct paren; eexists _, _; (split; [reflexivity|]); repeat split; reflexivity.
+  Qed.
+
+  (** the collection loop over complete elements followed by [tail] *)
+  Lemma coll_owed k cx closer : sq cx = false -> closer = 41 \/ closer = 93 ->
+    forall tail, tcond tail ->
+      (forall n s acc, rest s = tail -> EE (coll_loop orc (read_next orc k) cx closer n s acc)) ->
+    forall l, forallb wf l = true -> l <> [] ->
+    forall n s acc, rest s = render_seq l ++ tail ->
+      EE (coll_loop orc (read_next orc k) cx closer n s acc).
+  Proof.
+    intros SQ CL tail TT TB.
+    induction l as [|x t IH]; intros W NE n s acc E; [congruence|].
+    destruct n; [left; reflexivity|].
+    simpl in W. apply andb_true_iff in W as [Wx Wt].
+    destruct (render_head x Wx) as (c & tl & HX & HW & H41 & H93).
+    set (after := match t with [] => tail | _ => 32 :: render_seq t ++ tail end).
+    assert (E' : rest s = render x ++ after).
+    { rewrite E. unfold after. destruct t; simpl; [reflexivity|]. rewrite <- app_assoc. reflexivity. }
+    assert (TC : tcond after) by (unfold after; destruct t; [exact TT|apply tcond_space]).
+    assert (P : peek s = Some c) by (eapply peek_rest; rewrite E', HX; reflexivity).
+    assert (NC : (c =? closer) = false) by (destruct CL as [->| ->]; assumption).
+    simpl. rewrite P, HW, NC.
+    destruct (read_render orc x Wx k cx s after SQ E' TC) as [H|H]; rewrite H; [left; reflexivity|].
+    pose proof (reify_not_rcond x s) as NR. remember (reify x s) as fx eqn:Efx.
+    set (s' := adv_n (length (render x)) s) in *.
+    assert (ES' : rest s' = after) by (apply adv_n_app; exact E').
+    assert (STEP : EE (coll_loop orc (read_next orc k) cx closer n s' (fx :: acc))).
+    { destruct t as [|y t'].
+      - apply TB. exact ES'.
+      - destruct n; [left; reflexivity|]. unfold after in ES'.
+        simpl. rewrite (peek_rest _ _ _ ES'). change (is_ws 32) with true. cbn match.
+        apply IH; [exact Wt|discriminate|eapply adv_rest; exact ES']. }
+    clear Efx. destruct fx; try contradiction; exact STEP.
+  Qed.
+
+  Lemma coll_tail_eof k cx closer n s acc :
+    rest s = [] -> EE (coll_loop orc (read_next orc k) cx closer n s acc).
+  Proof.
+    intros E. destruct n; [left; reflexivity|]. right. simpl. rewrite (peek_nil _ E).
+    eexists _, _. reflexivity.
+  Qed.
+
+  Lemma coll_tail_inner k cx closer inner : closer = 41 \/ closer = 93 ->
+    (forall s, rest s = render_ctx inner -> EE (read_next orc k cx s)) ->
+    forall n s acc, rest s = render_ctx inner -> EE (coll_loop orc (read_next orc k) cx closer n s acc).
+  Proof.
+    intros CL HI n s acc E. destruct n; [left; reflexivity|].
+    destruct (ctx_head inner) as (c & t & EC & (HW & H41 & H93) & _).
+    assert (P : peek s = Some c) by (eapply peek_rest; rewrite E, EC; reflexivity).
+    assert (NC : (c =? closer) = false) by (destruct CL as [->| ->]; assumption).
+    simpl. rewrite P, HW, NC.
+    destruct (HI s E) as [H|(l & c0 & H)]; rewrite H; [left; reflexivity|right; eexists _, _; reflexivity].
+  Qed.
+
+  Lemma req_owed_end k cx s : rest s = [] -> EE (req (read_next orc k) cx s).
+  Proof.
+    intros E. unfold req. cbn [req_loop]. right.
+    assert (SW : skipws s = s) by (unfold skipws; rewrite E; reflexivity).
+    rewrite SW, (peek_nil _ E). eexists _, _. reflexivity.
+  Qed.
+  Lemma req_owed_inner k cx inner s :
+    (forall s, rest s = render_ctx inner -> EE (read_next orc k cx s)) ->
+    rest s = render_ctx inner -> EE (req (read_next orc k) cx s).
+  Proof.
+    intros HI E. unfold req. cbn [req_loop].
+    destruct (ctx_head inner) as (c & t & EC & (HW & _) & _).
+    assert (P : peek s = Some c) by (eapply peek_rest; rewrite E, EC; reflexivity).
+    rewrite (skipws_nonws _ _ P HW), P.
+    destruct (HI s E) as [H|(l & c0 & H)]; rewrite H; [left; reflexivity|right; eexists _, _; reflexivity].
+  Qed.
+
+  Lemma EE_bind {A B} (r : res A) (f : A -> st -> res B) : EE r -> EE (bind r f).
+  Proof. intros [->|(l & c & ->)]; [left|right; eexists _, _]; reflexivity. Qed.
+
+  Theorem read_owed k0 : KK k0.
+  Proof.
+    induction k0; intros W fuel cx s SQ E; (destruct fuel as [|k]; [left; reflexivity|]).
+    - (* unterminated string *)
+      cbn [render_ctx] in E. assert (P : peek s = Some 34) by (eapply peek_rest; exact E).
+      rewrite (read_next_step orc k cx s 34 P eq_refl eq_refl). cbv zeta.
+      change (dispatch_code 34) with 4. cbn match. apply EE_bind, EE_bind. unfold read_str.
+      apply (str_loop_open chars); [eapply adv_rest; exact E|exact W].
+    - (* unterminated collection, complete elements only *)
+      cbn [render_ctx wf_ctx] in *.
+      assert (X : forall closer, closer = 41 \/ closer = 93 -> forall s1, rest s1 = render_seq done ->
+                  EE (read_elems orc (read_next orc k) cx closer s1)).
+      { intros closer CL s1 E1. unfold read_elems. destruct done as [|x t].
+        - apply coll_tail_eof. exact E1.
+        - assert (NE : x :: t <> []) by discriminate.
+          apply (coll_owed k cx closer SQ CL [] tcond_nil
+                   (fun n s2 acc E2 => coll_tail_eof k cx closer n s2 acc E2) (x :: t) W NE).
+          rewrite app_nil_r. exact E1. }
+      destruct paren.
+      + assert (P : peek s = Some 40) by (eapply peek_rest; exact E).
+        rewrite (read_next_step orc k cx s 40 P eq_refl eq_refl). cbv zeta.
+        change (dispatch_code 40) with 1. cbn match. apply EE_bind. unfold read_list. apply EE_bind.
+        apply X; [left; reflexivity|eapply adv_rest; exact E].
+      + assert (P : peek s = Some 91) by (eapply peek_rest; exact E).
+        rewrite (read_next_step orc k cx s 91 P eq_refl eq_refl). cbv zeta.
+        change (dispatch_code 91) with 2. cbn match. apply EE_bind. unfold read_vec. apply EE_bind.
+        apply X; [right; reflexivity|eapply adv_rest; exact E].
+    - (* unterminated collection with an incomplete last element *)
+      cbn [render_ctx wf_ctx] in *. apply andb_true_iff in W as [Wd Wi].
+      assert (HI : forall s1, rest s1 = render_ctx k0 -> EE (read_next orc k cx s1)).
+      { intros s1 E1. apply IHk0; assumption. }
+      assert (X : forall closer, closer = 41 \/ closer = 93 -> forall s1,
+                  rest s1 = match done with [] => render_ctx k0 | _ => render_seq done ++ 32 :: render_ctx k0 end ->
+                  EE (read_elems orc (read_next orc k) cx closer s1)).
+      { intros closer CL s1 E1. unfold read_elems. destruct done as [|x t].
+        - apply (coll_tail_inner k cx closer k0 CL HI). exact E1.
+        - assert (NE : x :: t <> []) by discriminate.
+          assert (TB : forall n s2 acc, rest s2 = 32 :: render_ctx k0 ->
+                       EE (coll_loop orc (read_next orc k) cx closer n s2 acc)).
+          { intros n s2 acc E2. destruct n; [left; reflexivity|].
+            simpl. rewrite (peek_rest _ _ _ E2). change (is_ws 32) with true. cbn match.
+            apply (coll_tail_inner k cx closer k0 CL HI). eapply adv_rest; exact E2. }
+          apply (coll_owed k cx closer SQ CL (32 :: render_ctx k0) (tcond_space _) TB (x :: t) Wd NE).
+          exact E1. }
+      destruct paren.
+      + assert (P : peek s = Some 40) by (eapply peek_rest; exact E).
+        rewrite (read_next_step orc k cx s 40 P eq_refl eq_refl). cbv zeta.
+        change (dispatch_code 40) with 1. cbn match. apply EE_bind. unfold read_list. apply EE_bind.
+        apply X; [left; reflexivity|eapply adv_rest; exact E].
+      + assert (P : peek s = Some 91) by (eapply peek_rest; exact E).
+        rewrite (read_next_step orc k cx s 91 P eq_refl eq_refl). cbv zeta.
+        change (dispatch_code 91) with 2. cbn match. apply EE_bind. unfold read_vec. apply EE_bind.
+        apply X; [right; reflexivity|eapply adv_rest; exact E].
+    - (* quote at the end *)
+      cbn [render_ctx] in E. assert (P : peek s = Some 39) by (eapply peek_rest; exact E).
+      rewrite (read_next_step orc k cx s 39 P eq_refl eq_refl). cbv zeta.
+      change (dispatch_code 39) with 5. cbn match. apply EE_bind. unfold read_quoted. apply EE_bind.
+      apply req_owed_end. eapply adv_rest; exact E.
+    - cbn [render_ctx wf_ctx] in *. assert (P : peek s = Some 39) by (eapply peek_rest; exact E).
+      rewrite (read_next_step orc k cx s 39 P eq_refl eq_refl). cbv zeta.
+      change (dispatch_code 39) with 5. cbn match. apply EE_bind. unfold read_quoted. apply EE_bind.
+      apply (req_owed_inner k cx k0); [intros; apply IHk0; assumption|eapply adv_rest; exact E].
+    - (* deref at the end *)
+      cbn [render_ctx] in E. assert (P : peek s = Some 64) by (eapply peek_rest; exact E).
+      rewrite (read_next_step orc k cx s 64 P eq_refl eq_refl). cbv zeta.
+      change (dispatch_code 64) with 12. cbn match. apply EE_bind. unfold read_deref. apply EE_bind.
+      apply req_owed_end. eapply adv_rest; exact E.
+    - cbn [render_ctx wf_ctx] in *. assert (P : peek s = Some 64) by (eapply peek_rest; exact E).
+      rewrite (read_next_step orc k cx s 64 P eq_refl eq_refl). cbv zeta.
+      change (dispatch_code 64) with 12. cbn match. apply EE_bind. unfold read_deref. apply EE_bind.
+      apply (req_owed_inner k cx k0); [intros; apply IHk0; assumption|eapply adv_rest; exact E].
+  Qed.
+End Owed.
+
+Section OwedTop.
+  Variable orc : N -> list N -> bool.
+
+  Theorem read_all_owed k : wf_ctx k = true ->
+    exists l c, read_all orc (render_ctx k) = Err (EEof l c).
+  Proof.
+    intros W. pose proof (read_all_terminates orc (render_ctx k)) as NF.
+    unfold read_all in *. cbn [read_top] in *.
+    destruct (read_owed orc k W (S (length (render_ctx k))) ctx0 (init (render_ctx k)) eq_refl eq_refl)
+      as [H|(l & c & H)]; rewrite H in *; [congruence|]. eauto.
+  Qed.
+End OwedTop.
+
+(** ** an equal form: the same plain form read at two different places differs in locations only *)
+Lemma feq_flist wl x y l1 l2 :
+  feq wl (FList x l1) (FList y l2) = forms_eq wl x y && loc_eq wl l1 l2.
+Proof.
+  cbn [feq]. f_equal. unfold forms_eq. revert y. induction x as [|p x IH]; intros [|q y]; cbn [list_eqb]; try reflexivity.
+  rewrite <- IH. reflexivity.
+Qed.
+Lemma feq_fvec wl x y l1 l2 :
+  feq wl (FVec x l1) (FVec y l2) = forms_eq wl x y && loc_eq wl l1 l2.
+Proof.
+  cbn [feq]. f_equal. unfold forms_eq. revert y. induction x as [|p x IH]; intros [|q y]; cbn [list_eqb]; try reflexivity.
+  rewrite <- IH. reflexivity.
+Qed.
+
+Lemma reify_seq_shape l : Forall (fun g => forall a b, feq false (reify g a) (reify g b) = true) l ->
+  forall a b, forms_eq false (reify_seq l a) (reify_seq l b) = true.
+Proof.
+  induction 1 as [|x t Hx Ht IH]; intros a b; [reflexivity|].
+  cbn [reify_seq]. unfold forms_eq. cbn [list_eqb]. rewrite Hx. apply IH.
+Qed.
+
+Theorem reify_shape g : forall a b, feq false (reify g a) (reify g b) = true.
+Proof.
+  induction g using pform_ind'; intros a b.
+  - cbn [reify feq]. rewrite str_eqb_refl. reflexivity.
+  - cbn [reify feq]. apply str_eqb_refl.
+  - rewrite !reify_list, feq_flist. rewrite (reify_seq_shape l H). reflexivity.
+  - rewrite !reify_vec, feq_fvec. rewrite (reify_seq_shape l H). reflexivity.
+  - cbn [reify]. rewrite feq_flist. unfold forms_eq. cbn [list_eqb]. rewrite IHg.
+    cbn [feq]. rewrite str_eqb_refl. reflexivity.
+  - cbn [reify]. rewrite feq_flist. unfold forms_eq. cbn [list_eqb]. rewrite IHg.
+    cbn [feq]. rewrite !str_eqb_refl. reflexivity.
+Qed.
+
+(** the span a plain form is tagged with is the extent of its text *)
+Definition form_loc (f : form) : option span :=
+  match f with
+  | FSym _ _ l | FList _ l | FVec _ l | FMap _ l | FSet _ l => l
+  | _ => None
+  end.
+Lemma reify_loc g s :
+  form_loc (reify g s) =
+    match g with
+    | PStr _ => None
+    | _ => let e := adv_n (length (render g)) s in Some (line s, col s, line e, col e)
+    end.
+Proof. destruct g; reflexivity. Qed.
+
+Section Statements.
+  Variable orc : N -> list N -> bool.
+
+  Theorem incomplete_is_eof k : wf_ctx k = true ->
+    exists c, read_all orc (render_ctx k) = Err (EEof (fst (spec_loc (render_ctx k) (length (render_ctx k)))) c).
+  Proof.
+    intros W. destruct (read_all_owed orc k W) as (l & c & H).
+    destruct (eof_only_at_end_spec orc _ _ _ H) as (n & E). inversion E; subst. eauto.
+  Qed.
+
+  Theorem span_fidelity f : wf f = true ->
+    read_all orc (render f) = Ok [reify f (init (render f))] (adv_n (length (render f)) (init (render f))) /\
+    forall g s, wf g = true ->
+      read_all orc (render g) = Ok [reify g (init (render g))] (adv_n (length (render g)) (init (render g))) /\
+      feq false (reify g s) (reify g (init (render g))) = true.
+  Proof.
+    intros W. split; [apply read_all_render; exact W|].
+    intros g s Wg. split; [apply read_all_render; exact Wg|apply reify_shape].
+  Qed.
+End Statements.
+
+Definition ex_ctx : pctx :=
+  KCollIn true [PSym [97]; PStr [98]] (KQuoteIn (KCollEnd false [PSym [99]])).
+Lemma ex_ctx_ok : wf_ctx ex_ctx = true /\
+  render_ctx ex_ctx = [40; 97; 32; 34; 98; 34; 32; 39; 91; 99].       (* (a "b" '[c *)
+Proof. split; reflexivity. Qed.
+Definition ex_form : pform :=
+  PList [PSym [97]; PVec [PQuote (PSym [98]); PDeref (PSym [99])]; PStr [120; 10; 121]].
+Lemma ex_form_ok : wf ex_form = true /\
+  render ex_form = [40; 97; 32; 91; 39; 98; 32; 64; 99; 93; 32; 34; 120; 10; 121; 34; 41].
+Proof. split; reflexivity. Qed.
